@@ -12,8 +12,10 @@ t=$(PYTHONPATH=$wt /venv/bin/python -m pytest -q -p no:cacheprovider tests 2>&1 
 PYTHONPATH=$wt timeout 300 /venv/bin/python seed_demo.py >/dev/null 2>&1; with=$?
 git stash -q; PYTHONPATH=$wt timeout 300 /venv/bin/python seed_demo.py >/dev/null 2>&1; without=$?; git stash pop -q
 echo "tests: $t | demo with change rc=$with | without rc=$without"
-cd /repo && git apply --check $out/patch.diff || { echo "patch does not apply to /repo HEAD"; exit 3; }
-git apply $out/patch.diff
+cd /repo
+if git apply --check $out/patch.diff 2>/dev/null; then git apply $out/patch.diff
+elif patch -p1 --dry-run -s < $out/patch.diff >/dev/null 2>&1; then patch -p1 -s < $out/patch.diff; echo "(applied with offset)"
+else echo "patch does not apply to /repo HEAD"; exit 3; fi
 cd /verif && ./check $id > $out/check_output.txt 2>&1; rc=$?
 git -C /repo checkout -- . 
 tail -3 $out/check_output.txt | cut -c1-400
